@@ -171,7 +171,12 @@ def mapping_job(rng, area, failure, tag, tmp_dir=True, obsm=False):
         fault = {'mode': mode, 'point': point}
         if failure.endswith('_slowsibling'):
             # the siblings are still at work when the failure is noticed
-            fault['save_delay'] = 0.6
+            # chunk 0's worker fails after 1 s -- by then its siblings have
+            # done their work and read everything they need -- and they
+            # save 2.5 s after finishing, i.e. well after the failed call
+            # has cleaned up and returned
+            fault['fail_delay'] = 1.0
+            fault['save_delay'] = 2.5
     real_failure = failure if failure not in ('unwritable_output',
                                               'unwritable_hdf5') \
         and fault is None else 'success'
@@ -466,6 +471,10 @@ def created_paths(spec):
 def temp_class(name, stage):
     """stable class of a temporary's name: its prefix without the random part
     and the timestamp"""
+    if '_as_csr_' in name:
+        # <file name>[<random>.h5ad]_as_csr_<random>.h5: the CSR transcription
+        return 'h5ad_as_csr' if stage == 'mapping' \
+            else '%s-h5ad_as_csr' % stage
     m = re.match(r'^(.*?)[a-z0-9_]{8}(\.\w+)?$', name)
     base = m.group(1) if m else name
     base = re.sub(r'\d{6,}', '', base).strip('_') or 'tmp'
